@@ -1,10 +1,11 @@
 (* C12/Props.v — the property theorems, nothing else.
    Model: C12/Model.v (mirrors utils.str.byteTextWrap/splitBytes, ircutils.FormatContext/
    FormatParser/wrap, NestedCommandsIrcProxy.reply, _makeReply, Misc.more).
-   Proofs: Wrap.v, More.v, Fits.v. *)
+   Proofs: Wrap.v, More.v, Fits.v, Plain.v, Total.v.
+   The model follows the repaired code (fix: commits for C12.F12, F13, F40, F41, F42). *)
 From Coq Require Import List NArith ZArith.
 Import ListNotations.
-Require Import Base.Wire Base.PyStr C12.Model C12.Wrap C12.More C12.Fits C12.Plain.
+Require Import Base.Wire Base.PyStr C12.Model C12.Wrap C12.More C12.Fits C12.Plain C12.Total.
 
 (* ---- byteTextWrap, for every word list (the output of TextWrapper._split_chunks is an
         explicit input) and every size >= 4 ---- *)
@@ -59,64 +60,61 @@ Print Assumptions C12_more_progress.
 (* ---- every message fits in 512 bytes once prefixed ----
    Full statement:  forall k s sent L, reply k s = Ok (sent, L) ->
                       Forall (fun line => line_fits k line = true) (sent ++ rev L).
-   The pinned code violates it in four independent ways; each accounting step is proved on its
-   decidable domain and refuted outside it. *)
+   The accounting steps, each at the strength the repaired code reaches: *)
 
-(* (a) allowedLength: a payload within allowedLength gives a line within 512 bytes when
-       prefix/target/nick are ASCII and, in a query, the sender nick fits the reserve *)
-Theorem C12_line_fits_on_domain : forall k p,
-  env_ok k = true -> nonempty (strip [1%N] p) = true ->
+(* (a) allowedLength (full since the repair of F41/F42): any prefix, target and nick, channel or
+       query: a payload within allowedLength gives a line within 512 bytes *)
+Theorem C12_line_fits : forall k p,
+  c_length k = 0%N -> nonempty (strip [1%N] p) = true ->
   (Z.of_N (blen p) <= allowed_length k)%Z -> line_fits k (makeReply k p) = true.
-Proof. exact line_fits_on_domain. Qed.
-Print Assumptions C12_line_fits_on_domain.
+Proof. exact line_fits_full. Qed.
+Print Assumptions C12_line_fits.
 
-Theorem C12_line_fits_refuted :
-  (exists k p, env_ok k = false /\ c_public k = true /\ nonempty (strip [1%N] p) = true /\
-               (Z.of_N (blen p) <= allowed_length k)%Z /\ line_fits k (makeReply k p) = false) /\
-  (exists k p, env_ok k = false /\ c_public k = false /\ nonempty (strip [1%N] p) = true /\
-               (Z.of_N (blen p) <= allowed_length k)%Z /\ line_fits k (makeReply k p) = false).
-Proof. exact line_fits_refuted. Qed.
-Print Assumptions C12_line_fits_refuted.
-
-(* (b) the "(XX more messages)" reserve covers the suffix only when one message remains *)
-Theorem C12_suffix_reserve_on_domain : blen (suffix 1 1) = gen.T12.MORE_RESERVE.
+(* (b) the "(XX more messages)" reserve (repair of F12) covers the suffix for 1..99 pending
+       messages -- every count the two-digit text provides for; a three-digit count is still over *)
+Theorem C12_suffix_reserve_on_domain : forall n,
+  (1 <= n <= 99)%N -> (blen (suffix n n) <= gen.T12.MORE_RESERVE)%N.
 Proof. exact suffix_reserve_on_domain. Qed.
 Print Assumptions C12_suffix_reserve_on_domain.
 
-Theorem C12_suffix_reserve_refuted : forall n, (2 <= n)%N -> (gen.T12.MORE_RESERVE < blen (suffix n n))%N.
+Theorem C12_suffix_reserve_refuted : exists n, (99 < n)%N /\ (gen.T12.MORE_RESERVE < blen (suffix n n))%N.
 Proof. exact suffix_reserve_refuted. Qed.
 Print Assumptions C12_suffix_reserve_refuted.
 
-(* (c) ircutils.wrap: a chunk may exceed the requested length (colour 0) *)
-Theorem C12_chunk_fits_refuted :
-  exists s ls, wrap s 32 = Ok ls /\ Exists (fun c => (32 < blen c)%N) ls.
-Proof. exact chunk_fits_refuted. Qed.
-Print Assumptions C12_chunk_fits_refuted.
+(* (c) FormatContext.size() (full since the repair of F13): for every context with colour numbers
+       below 100 (getInt yields < 16) it covers what start() and end() add to a chunk *)
+Theorem C12_context_size_covers : forall c s,
+  small (fg c) -> small (bg c) -> (blen (fend c (fstart c s)) <= blen s + fsize c)%N.
+Proof. exact context_size_covers. Qed.
+Print Assumptions C12_context_size_covers.
 
-(*     on text without formatting codes (\x02 \x03 \x0f \x16 \x1f) every chunk fits and the chunks
-       spell the munged text.  Partial: the largest domain is "no colour 0"; text with other
-       formatting is covered by the differential run and the direct oracle only. *)
+(*     ircutils.wrap: on text without formatting codes every chunk fits and the chunks spell the
+       munged text.  Partial: formatted text is covered by the differential run only, and the
+       full statement is still refuted by the colour/digit junction (F14, known finding). *)
 Theorem C12_chunk_fits_on_plain_partial : forall s (n : Z) ls,
   no_fmt s = true -> (4 <= n)%Z -> wrap s n = Ok ls ->
   Forall (fun c => (Z.of_nat (length (utf8 c)) <= n)%Z) ls /\ concat ls = munge s.
 Proof. exact chunk_fits_on_plain. Qed.
 Print Assumptions C12_chunk_fits_on_plain_partial.
 
-(* (d) end to end: a plain ASCII reply, ASCII channel, overflows *)
-Theorem C12_message_fits_refuted :
-  exists k s sent L, env_ok k = true /\ ascii s = true /\ reply k s = Ok (sent, L) /\
-                     Exists (fun line => line_fits k line = false) (sent ++ rev L).
-Proof. exact message_fits_refuted. Qed.
-Print Assumptions C12_message_fits_refuted.
+Theorem C12_chunk_fits_refuted :
+  exists s ls, wrap s 12 = Ok ls /\ Exists (fun c => (12 < blen c)%N) ls.
+Proof. exact chunk_fits_refuted. Qed.
+Print Assumptions C12_chunk_fits_refuted.
 
-(* ---- the visible text ---- *)
+(* ---- the visible text (F14, known finding) ---- *)
 Theorem C12_visible_text_refuted :
   exists s ls, wrap s 16 = Ok ls /\ concat (map visible ls) <> visible (munge s).
 Proof. exact visible_text_refuted. Qed.
 Print Assumptions C12_visible_text_refuted.
 
-(* a digit character that int() rejects after \x03 makes wrap raise for every length *)
-Theorem C12_wrap_valueerror_refuted :
-  exists s, has_surrogate s = false /\ forall n, wrap s n = Raise ValueError.
-Proof. exact wrap_total_refuted. Qed.
-Print Assumptions C12_wrap_valueerror_refuted.
+(* ---- FormatParser never raises (full since the repair of F40) ---- *)
+Theorem C12_parse_total : forall s, exists r, parse s = Ok r.
+Proof. exact parse_total. Qed.
+Print Assumptions C12_parse_total.
+
+(* wrap can only fail by str.encode on a lone surrogate or by the byteTextWrap loop not
+   terminating (size below one character, see C12_wrap_total for size >= 4) *)
+Theorem C12_wrap_raises_only : forall s n e, wrap s n = Raise e -> e = UnicodeError \/ e = OtherError.
+Proof. exact wrap_raises_only. Qed.
+Print Assumptions C12_wrap_raises_only.
